@@ -271,6 +271,56 @@ fn main() {{
 '''
 
 
+def gen_aggregate_program(a):
+    """A third well-typed use of the arm: aggregates passed by value (a 12-byte all-float struct, which the
+    SysV C ABI passes in SSE registers, and a 40-byte struct, passed in memory).  The fake must see exactly
+    what the caller passed: the ABI of the generated fake has to be the one the func_type names."""
+    kind, unit, opts = a["kind"], a["unit"], a["opts"]
+    raw = kind in ("C", "system", "unsafe")
+    outty = "*mut i32" if raw else "&mut i32"
+    kw = {"safe": "fn", "unsafe": "unsafe fn", "C": 'unsafe extern "C" fn', "system": 'unsafe extern "system" fn'}[kind]
+    fnty_macro = {"safe": "fn", "unsafe": "unsafe{} fn", "C": 'unsafe{} extern "C" fn', "system": 'unsafe{} extern "system" fn'}[kind]
+    ret = "()" if unit else "i32"
+    target_ret = "" if unit else " -> i32"
+    parts = [f"func_type: {kw}(a: i32, s: S3, b: Big, out: {outty}) -> {ret}"]
+    for o in opts:
+        parts.append({"when": "when: a == 1 && s.y == 2.5 && b.v[4] == 55", "assign": "assign: { *out += 10 + s.x as i32 }", "returns": "returns: *out + 2 + s.z as i32 + b.v[0] as i32", "times": "times: 1"}[o])
+    fake = "injectorpp::fake!(" + ", ".join(parts) + ")"
+    body = ("unsafe { *out += 1000; }" if raw else "*out += 1000;") + ("" if unit else " 7000")
+    argv = "1, S3 { x: 1.0, y: 2.5, z: 3.0 }, Big { v: [11, 22, 33, 44, 55] }"
+    call = f"target({argv}, &mut out)" if not raw else f"unsafe {{ target({argv}, &mut out as *mut i32) }}"
+    return f'''// generated by /verif/lib/e4.py: by-value aggregate probe for the fake! arm at macros.rs:{a["line"]} ({arm_name(a)})
+use injectorpp::interface::injector::*;
+use std::panic::{{catch_unwind, AssertUnwindSafe}};
+#[derive(Clone, Copy, PartialEq)]
+#[repr(C)]
+pub struct S3 {{ pub x: f32, pub y: f32, pub z: f32 }}
+#[derive(Clone, Copy, PartialEq)]
+#[repr(C)]
+pub struct Big {{ pub v: [u64; 5] }}
+
+#[inline(never)]
+{kw} target(a: i32, s: S3, b: Big, out: {outty}){target_ret} {{
+    let _ = std::hint::black_box((a, s.x, b.v[0]));
+    {body}
+}}
+
+fn main() {{
+    let r = catch_unwind(AssertUnwindSafe(|| {{
+        let mut injector = InjectorPP::new();
+        injector.when_called(injectorpp::func!({fnty_macro} (target)(i32, S3, Big, {outty}){target_ret})).will_execute({fake});
+        let mut out: i32 = 5;
+        let v = {call};
+        println!("ret={{:?}} out={{out}}", v);
+    }}));
+    match r {{
+        Ok(()) => println!("exit: ok"),
+        Err(p) => println!("exit: panic {{}}", p.downcast_ref::<String>().cloned().or_else(|| p.downcast_ref::<&str>().map(|s| s.to_string())).unwrap_or_default()),
+    }}
+}}
+'''
+
+
 def arm_model(a, n, scripts):
     """Reference model for one or more lifetimes ('/'-separated scripts), every one judged like a first one."""
     lines = []
@@ -401,7 +451,7 @@ def scripts_for(a, n, extra):
     return out
 
 
-def c08(tier, mi):
+def c08(tier, mi, only_aggregates=False):
     repo = mi["repo"]
     arms = parse_arms(os.path.join(repo, "src", "interface", "macros.rs"))
     rlib, deps = real_rlib()
@@ -411,10 +461,15 @@ def c08(tier, mi):
         seen.setdefault(arm_name(a), a)
     progs = {("arm_" + name): gen_arm_program(a) for name, a in seen.items()}
     progs.update({("cap_" + name): gen_namecap_program(a) for name, a in seen.items()})
+    progs.update({("agg_" + name): gen_aggregate_program(a) for name, a in seen.items()})
+    if only_aggregates:
+        progs = {k: v for k, v in progs.items() if k.startswith("agg_")}
     built = build_many(progs, rlib, deps)
     viols = []
     runs = []
     for name, a in seen.items():
+        if only_aggregates:
+            break
         ok, err, exe = built["arm_" + name]
         if not ok:
             first = next((l for l in err.splitlines() if l.startswith("error")), err[:200])
@@ -433,6 +488,8 @@ def c08(tier, mi):
     # name-capture probes: must compile, install, run once and leave scope quietly
     cap_cmds = []
     for name, a in seen.items():
+        if only_aggregates:
+            break
         ok, err, exe = built["cap_" + name]
         if not ok:
             first = next((l for l in err.splitlines() if l.startswith("error")), err[:200])
@@ -448,6 +505,24 @@ def c08(tier, mi):
         if got != want:
             viols.append({"key": f"arm:{name}:user-names-captured", "what": f"arm {name} (macros.rs:{a['line']}) used with user types named `Ordering` / `AtomicUsize`: got {got} (status {rc}), expected {want}",
                           "engine": "e4", "args": ["c08"], "case": {"arm": name, "line": a["line"], "stdout": so[-400:], "status": rc}})
+    # by-value aggregate probes: the fake must receive exactly what the caller passed
+    agg_cmds = []
+    for name, a in seen.items():
+        ok, err, exe = built["agg_" + name]
+        if not ok:
+            first = next((l for l in err.splitlines() if l.startswith("error")), err[:200])
+            viols.append({"key": f"arm:{name}:aggregates-by-value:does-not-compile", "what": f"the fake! arm at macros.rs:{a['line']} ({name}) does not compile for a func_type with structs passed by value: {first}",
+                          "engine": "e4", "args": ["c08"], "case": {"arm": name, "line": a["line"], "rustc": err[-1200:]}})
+        else:
+            agg_cmds.append((name, a, [exe]))
+    for (name, a, _), (rc, so, se) in zip(agg_cmds, run_many([c[2] for c in agg_cmds])):
+        out_v = 5 + (11 if "assign" in a["opts"] else 0)
+        want_ret = "()" if a["unit"] else str(out_v + 2 + 3 + 11)
+        want = [f"ret={want_ret} out={out_v}", "exit: ok"]
+        got = [l for l in so.splitlines() if l.strip()]
+        if got != want:
+            viols.append({"key": f"arm:{name}:aggregates-by-value", "what": f"arm {name} (macros.rs:{a['line']}) with a 12-byte float struct and a 40-byte struct passed by value: got {got} (status {rc}), expected {want}",
+                          "engine": "e4", "args": ["c08"], "case": {"arm": name, "line": a["line"], "stdout": so[-400:], "status": rc}})
     results = run_many([r[3] for r in runs])
     outcomes = set()
     for (a, n, sc, _), (rc, so, se) in zip(runs, results):
@@ -457,7 +532,7 @@ def c08(tier, mi):
             viols.append({"key": f"arm:{arm_name(a)}:{j[0]}", "what": j[1], "engine": "e4", "args": ["c08"],
                           "case": {"arm": arm_name(a), "line": a["line"], "n": n, "script": sc, "stdout": so[-600:], "status": rc}})
     cov = {
-        "states": len(runs) + len(seen),
+        "states": len(runs) + 2 * len(seen),
         "transitions": sum(len(r[2]) + 2 for r in runs),
         "traces_validated_against_impl": len(runs),
         "samples": [{"arm": arm_name(r[0]), "n": r[1], "script": r[2]} for r in runs[:: max(1, len(runs) // 4)][:4]],
